@@ -270,10 +270,27 @@ pub fn corr(ctx: &mut Ctx) {
             }
         }
     };
-    let inputs: [(&str, Vec<u8>); 3] = [
+    // a file that cannot be improved either, but that oxipng would write differently at the same size (bKGD in front of
+    // pHYs): "no improvement" must not depend on the re-serialisation being byte-identical
+    let rewrapped: Vec<u8> = {
+        let mut out = improvable.1.clone();
+        if let (Ok(chs), Ok(d)) = (crate::pngparse::parse_chunks(&improvable.1), crate::pngparse::decode(&improvable.1)) {
+            let mut list: Vec<([u8; 4], Vec<u8>)> = chs.iter().map(|c| (c.name, c.data.clone())).collect();
+            if let Some(at) = list.iter().position(|c| &c.0 == b"IDAT") {
+                let bk = match d.img.ct { 3 => vec![0], 0 | 4 => vec![0, 1], _ => vec![0, 1, 0, 2, 0, 3] };
+                list.insert(at, (*b"pHYs", vec![0, 0, 0x0b, 0x13, 0, 0, 0x0b, 0x13, 1]));
+                list.insert(at, (*b"bKGD", bk));
+                out = crate::front::rebuild(&list);
+            }
+        }
+        // (only if the default run really returns it unchanged)
+        match run_case(&out, &HOpts::from_preset(2)) { Outcome::Ok(b) if b == out => out, _ => improvable.1.clone() }
+    };
+    let inputs: [(&str, Vec<u8>); 4] = [
         ("improvable", improvable.0.clone()),
         ("notimprovable", improvable.1.clone()),
         ("invalid", b"\x89PNG\r\n\x1a\nnot really a png".to_vec()),
+        ("notimprovable", rewrapped),
     ];
     let routes: [(&'static str, Vec<&str>); 7] = [
         ("inplace", vec![]),
